@@ -206,7 +206,8 @@ def run_check(mod, tier, seed, deadline_s=None):
         else:
             new.append(key)
     out = _REAL_STDOUT
-    rdir = os.path.join(VERIF, "replays", pid)
+    outdir = os.environ.get("ARMMC_OUT", VERIF)      # mutation sweeps divert replays + evidence to a scratch directory
+    rdir = os.path.join(outdir, "replays", pid)
     for key in seen_known:
         print("KNOWN-FINDING: property=%s %s (%d cases) -- %s" % (
             pid, key, tot.violations[key]["count"], known[(pid, key)].get("what", "")), file=out)
@@ -254,8 +255,8 @@ def run_check(mod, tier, seed, deadline_s=None):
         "coverage": cov, "assumptions": plan.get("assumptions", []), "wall_s": round(wall, 2),
         "violations": len(new),
     }
-    os.makedirs(os.path.join(VERIF, "evidence"), exist_ok=True)
-    with open(os.path.join(VERIF, "evidence", pid + ".json"), "w") as f:
+    os.makedirs(os.path.join(outdir, "evidence"), exist_ok=True)
+    with open(os.path.join(outdir, "evidence", pid + ".json"), "w") as f:
         json.dump(ev, f, indent=1, default=str)
     print("%s %s: shards %d/%d cases=%d transitions=%d states=%d outcomes=%d violations=%d known=%d wall=%.1fs%s" % (
         pid, tier, done_shards, n, tot.cases, tot.transitions, nstates, len(tot.outcomes), len(new), len(seen_known),
